@@ -853,7 +853,7 @@ impl Add for Time {
 
     fn add(self, rhs: Self) -> Self::Output {
         Time {
-            nanoseconds: self.nanoseconds + rhs.nanoseconds,
+            nanoseconds: (self.nanoseconds + rhs.nanoseconds) % NANOS_PER_DAY,
             offset: self.offset,
         }
     }
@@ -869,7 +869,7 @@ impl Sub for Time {
 
     fn sub(self, rhs: Self) -> Self::Output {
         Time {
-            nanoseconds: self.nanoseconds - rhs.nanoseconds,
+            nanoseconds: (self.nanoseconds + NANOS_PER_DAY - rhs.nanoseconds) % NANOS_PER_DAY,
             offset: self.offset,
         }
     }
@@ -884,8 +884,11 @@ impl Add<Duration> for Time {
     type Output = Self;
 
     fn add(self, rhs: Duration) -> Self::Output {
-        let nanos = self.as_nanos() + rhs.as_nanos() as u64;
-        Self::from_nanos(nanos).unwrap()
+        let rhs_nanos = (rhs.as_nanos() % NANOS_PER_DAY as u128) as u64;
+        Self {
+            nanoseconds: (self.nanoseconds + rhs_nanos) % NANOS_PER_DAY,
+            offset: self.offset,
+        }
     }
 }
 impl AddAssign<Duration> for Time {
@@ -898,8 +901,11 @@ impl Sub<Duration> for Time {
     type Output = Self;
 
     fn sub(self, rhs: Duration) -> Self::Output {
-        let nanos = self.as_nanos() - rhs.as_nanos() as u64;
-        Self::from_nanos(nanos).unwrap()
+        let rhs_nanos = (rhs.as_nanos() % NANOS_PER_DAY as u128) as u64;
+        Self {
+            nanoseconds: (self.nanoseconds + NANOS_PER_DAY - rhs_nanos) % NANOS_PER_DAY,
+            offset: self.offset,
+        }
     }
 }
 impl SubAssign<Duration> for Time {
